@@ -522,3 +522,72 @@ Example alt_single_base_insertion_point_in_source :
     k_gpo_alt_var_overlaps_var (kgpo_of g) (mkVar 15 [A] [C]) = Ok false /\
     k_gpo_alt_var_overlaps_var (kgpo_of g) (mkVar 14 [A; A] []) = Ok true.
 Proof. eexists. split; [vm_compute; reflexivity|]. split; vm_compute; reflexivity. Qed.
+
+(* ---- the construction: clamp_var_stats_collection and from_var_stats ---- *)
+Lemma kg_vs_is_in_range_eq v r : kg_vs_is_in_range v r = Ok (vs_in_range v r).
+Proof.
+  unfold kg_vs_is_in_range, vs_in_range, kg_vs_ref_end, kg_get_end, kg_clamp_non_negative, vref_end, get_end. cbn [bind].
+  destruct (in_range (vpos v) r); cbn [andb bind]; [|reflexivity].
+  destruct (vrl v =? 0); cbn [orb bind]; reflexivity.
+Qed.
+
+Lemma py_index_in {X} (a : list X) i : 0 <= i < zlen a -> exists x, py_index a i = Ok x.
+Proof.
+  intros H. unfold py_index, py_norm. rewrite (proj2 (Z.ltb_ge _ _) (proj1 H)).
+  destruct (znth_lt_Some i a H) as [x Hx]. exists x. now rewrite Hx.
+Qed.
+
+Lemma any_m_scan (a : list vstat) l : (forall i, In i l -> 1 <= i < zlen a) ->
+  any_m (fun i => do _t20 <- py_index a i; do _t21 <- py_index a (i - 1); Ok false) l = Ok false.
+Proof.
+  induction l as [|i l IH]; intros H; cbn [any_m]; [reflexivity|].
+  assert (Hi : 1 <= i < zlen a) by (apply H; now left).
+  destruct (py_index_in a i) as [x Hx]; [lia|]. destruct (py_index_in a (i - 1)) as [y Hy]; [lia|].
+  rewrite Hx. cbn [bind]. rewrite Hy. cbn [bind]. apply IH. intros j Hj. apply H. now right.
+Qed.
+
+Theorem k_clamp_var_stats_collection_eq vs r : k_clamp_var_stats_collection vs r = clamp vs r.
+Proof.
+  unfold k_clamp_var_stats_collection, clamp.
+  destruct (Z.ltb_spec 0 (rs r)) as [Hp|Hp].
+  2:{ rewrite (proj2 (Z.leb_le _ _) Hp). reflexivity. }
+  rewrite (proj2 (Z.leb_gt _ _) Hp).
+  destruct (sort_by_pos vs) as [|v rest] eqn:Es; [reflexivity|]. cbn [lempty].
+  unfold py_index at 1. cbn [py_norm Z.ltb Z.compare znth Z.to_nat nth_error bind].
+  rewrite kg_vs_is_in_range_eq. cbn [bind]. destruct (vs_in_range v r) eqn:Ev; cbn [negb]; [|reflexivity].
+  rewrite zlen_cons. destruct (Z.ltb_spec 1 (1 + zlen rest)) as [Hn|Hn].
+  - rewrite any_m_scan.
+    2:{ intros i Hi. fold (zrange 1 (1 + zlen rest)) in Hi. apply zrange_In in Hi. rewrite zlen_cons. lia. }
+    cbn [bind]. rewrite (py_index_minus_one (v :: rest) v) by discriminate. cbn [bind].
+    replace (last (v :: rest) v) with (last rest v) by (destruct rest; reflexivity).
+    rewrite kg_vs_is_in_range_eq. cbn [bind]. destruct (vs_in_range (last rest v) r); reflexivity.
+  - assert (rest = []) by (apply zlen_zero_nil; pose proof (zlen_nonneg rest); lia). subst rest. cbn [last].
+    rewrite Ev. reflexivity.
+Qed.
+
+(* from_var_stats (with __post_init__): on every valid range, wherever the model does not flag a negative array index, the translated
+   constructor returns the model's record (masks as byte arrays) or fails with the model's exception *)
+Theorem k_gpo_from_var_stats_eq vs r : range_valid r = true -> from_var_stats vs r <> Err OtherErr ->
+  k_gpo_from_var_stats vs r = match from_var_stats vs r with Ok g => Ok (kgpo_of g) | Err e => Err e end.
+Proof.
+  intros Hv Hno. unfold k_gpo_from_var_stats, from_var_stats in *. rewrite k_clamp_var_stats_collection_eq.
+  destruct (clamp vs r) as [cvs|e]; cbn [bind] in *; [|reflexivity].
+  rewrite k_get_alt_ref_delta_eq. cbn [bind].
+  assert (Hn : 0 <= rlen r). { unfold range_valid in Hv. unfold rlen. apply andb_prop in Hv. destruct Hv as [_ Hv]. apply Z.leb_le in Hv. lia. }
+  assert (Hm : ref_masks (rs r) cvs (zeros (rlen r)) (zeros (rlen r)) <> Err OtherErr).
+  { intros E. rewrite E in Hno. now apply Hno. }
+  rewrite (k_compute_ref_del_mask_eq (rs r) (rlen r) cvs Hn Hm).
+  destruct (ref_masks (rs r) cvs (zeros (rlen r)) (zeros (rlen r))) as [[dm sm]|e]; cbn [bind] in *; [|reflexivity].
+  rewrite k_compute_ref_offsets_eq. cbn [bind]. destruct (ref_offsets 0 cvs) as [po ao].
+  destruct (Z.ltb_spec (rlen r + sum_delta cvs) 0) as [Hneg|Hpos].
+  - (* a negative ALT length: bytes(n) refuses it *)
+    unfold k_compute_alt_ins_mask, u8_zeros. rewrite (proj2 (Z.ltb_lt _ _) Hneg). reflexivity.
+  - assert (Hi : ins_mask (rs r) 0 cvs (zeros (rlen r + sum_delta cvs)) <> Err OtherErr).
+    { intros E. rewrite E in Hno. now apply Hno. }
+    rewrite (k_compute_alt_ins_mask_eq (rs r) (rlen r + sum_delta cvs) cvs Hpos Hi).
+    destruct (ins_mask (rs r) 0 cvs (zeros (rlen r + sum_delta cvs))) as [im|e]; cbn [bind]; [|reflexivity].
+    unfold k_gpo_post_init. cbn [kg_alt_length]. rewrite (proj2 (Z.ltb_ge _ _) Hpos). cbn [bind fst snd]. reflexivity.
+Qed.
+
+Corollary k_gpo_from_var_stats_ok vs r g : range_valid r = true -> from_var_stats vs r = Ok g -> k_gpo_from_var_stats vs r = Ok (kgpo_of g).
+Proof. intros Hv H. rewrite k_gpo_from_var_stats_eq; [now rewrite H|exact Hv|rewrite H; discriminate]. Qed.
